@@ -117,6 +117,14 @@ func (n *Node) spi(kind string, h uint64, ctx context.Context, block bool) {
 	if ctx.Err() != nil {
 		n.x.Bad("C15", "spi-called-with-cancelled-context", "%s for height %d was started with an already cancelled context", kind, h)
 	}
+	if kind == "request" && n.M != nil {
+		// the proposal is requested for the position the node is in: its context must be that position's context
+		// (a context of an earlier view would be cancelled by events about that earlier view)
+		cur := n.M.State().HeightView()
+		if want, err := n.M.State().Contexts.For(cur); err == nil && want != ctx {
+			n.x.Bad("C15", "spi-context-of-another-position", "RequestNewBlockProposal at %s was given a context that is not the context of that position", cur)
+		}
+	}
 	if hold := n.spiHold; hold != nil { // a slow consumer that ignores its context until the harness lets it go
 		n.spiHold = nil
 		vs.Recv(hold)
